@@ -196,6 +196,16 @@ fn check_cal<C: DateRoll>(cal: &C, bm: &Bitmap, d_lo: i64, d_hi: i64, ns: &[i8],
         if with_ranges {
             for e in z - 1..=(z + 12).min(d_hi + 6) {
                 acc.eval();
+                // the calendar-date range is every date from start to end inclusive (empty when end < start)
+                match cal.cal_date_range(&d, &to_ndt(e)) {
+                    Ok(v) => {
+                        let want: Vec<i64> = (z..=e).collect();
+                        if v.iter().map(from_ndt).collect::<Vec<i64>>() != want {
+                            acc.violate(&format!("cal_date_range/{}", tag), idx, cj(), json!({"start": fmt_day(z), "end": fmt_day(e), "want_len": want.len()}), json!(v.len()));
+                        }
+                    }
+                    Err(_) => acc.violate(&format!("cal_date_range/{}/unexpected-error", tag), idx, cj(), json!({"start": fmt_day(z), "end": fmt_day(e)}), json!("Err")),
+                }
                 let got = cal.bus_date_range(&d, &to_ndt(e));
                 let ends_ok = is_bus && bm.is_bus(e);
                 match (ends_ok, got) {
@@ -411,7 +421,7 @@ pub fn run(ctx: &Ctx, replay_file: Option<String>) -> ! {
          window, on top of periodic week masks for the business calendar (none, Sat-Sun, Fri-Sat, Mon-Fri closed) and \
          the settlement calendar (absent, Sat-Sun, Sun+Mon, none); EVERY i8 day count, both settlement flags, every \
          start date of the window +-1: add_bus_days (value, error on a non-business start, inverse law), lag, \
-         add_days under all 5 modifiers, bus_date_range for every (start, end) pair; the holiday vector is handed over in date order, reversed, interleaved or with every date twice (by case index). (1b) long runs of 12, 35, 64, 367 and 430 consecutive closures at every weekday alignment, every i8 count from the days \
+         add_days under all 5 modifiers, bus_date_range and cal_date_range for every (start, end) pair; the holiday vector is handed over in date order, reversed, interleaved or with every date twice (by case index). (1b) long runs of 12, 35, 64, 367 and 430 consecutive closures at every weekday alignment, every i8 count from the days \
          around both ends of the run. (2) named calendars (those with settlement calendars also wrapped in the CalType container): every date \
          of several years x every i8; every built-in calendar over every date 1970-2200 x a reduced count menu \
          (|n|<=10 and +-20,63,64,100,126,127,-128). Oracle: index arithmetic on the sorted list of the calendar's own \
